@@ -199,10 +199,12 @@ Proof.
 Qed.
 
 (* ------------------------------------------------------------------ the invariant *)
+(* what forces another pass: identifiers that were not found and symbols that changed value *)
+Definition flags (c : ctx) : list undef := undefined c ++ changed c.
 Definition quiet (c c' : ctx) : Prop :=
-  undefined c' = [] /\ node_count (symbols c') = node_count (symbols c) /\ g_vch c' = g_vch c.
+  flags c' = [] /\ node_count (symbols c') = node_count (symbols c) /\ g_vch c' = g_vch c.
 Definition mono (c c' : ctx) : Prop :=
-  (undefined c' = [] -> undefined c = []) /\
+  (flags c' = [] -> flags c = []) /\
   (node_count (symbols c) <= node_count (symbols c'))%nat /\ (g_vch c <= g_vch c')%nat.
 (* every step only adds to the undefined set, the node count and the ghost counter; a step that added to none of
    them left the table unchanged (up to stamps), and what it logged is true of that table *)
@@ -235,7 +237,7 @@ Proof. intros M T N. split; [exact M|]. exists new. split; [exact T|]. intro Q. 
 
 (* a step that does not touch table, undefined set or counters *)
 Lemma good_frame c c' new :
-  symbols c' = symbols c -> undefined c' = undefined c -> g_vch c' = g_vch c -> g_trace c' = new ++ g_trace c ->
+  symbols c' = symbols c -> flags c' = flags c -> g_vch c' = g_vch c -> g_trace c' = new ++ g_trace c ->
   Forall (holds (symbols c)) new -> good c c'.
 Proof.
   intros S U V T F. split; [unfold mono; rewrite S, U, V; auto with arith|].
@@ -280,16 +282,25 @@ Qed.
 (* ------------------------------------------------------------------ good for every primitive *)
 Notation GM := (RM good).
 
+Lemma flags_undefined_nonempty c id sp : flags (flag_undefined c id sp) <> [].
+Proof.
+  unfold flags, flag_undefined. cbn. intro H. apply app_eq_nil in H as [H _]. eapply set_insert_nonempty; eauto.
+Qed.
+Lemma flags_changed_nonempty c id sp : flags (flag_changed c id sp) <> [].
+Proof.
+  unfold flags, flag_changed. cbn. intro H. apply app_eq_nil in H as [_ H]. eapply set_insert_nonempty; eauto.
+Qed.
+
 Lemma good_flag c id sp : good c (flag_undefined c id sp).
 Proof.
   apply good_loud with (new := []); [| reflexivity |].
-  - unfold mono, flag_undefined. cbn. repeat split; auto. intro H. exfalso. eapply set_insert_nonempty; eauto.
-  - intros (U & _). unfold flag_undefined in U. cbn in U. eapply set_insert_nonempty; eauto.
+  - unfold mono. repeat split; auto. intro H. exfalso. eapply flags_undefined_nonempty; eauto.
+  - intros (U & _). eapply flags_undefined_nonempty; eauto.
 Qed.
 
 Ltac simp_ctx :=
-  cbn [symbols undefined g_vch g_trace current_scope_nx current_scope set_symbols bump_vch flag_undefined set_undefined log
-       set_scope set_segments set_macro_id] in *.
+  cbn [symbols undefined changed g_vch g_trace current_scope_nx current_scope set_symbols bump_vch flag_undefined flag_changed set_undefined
+       set_changed log set_scope set_segments set_macro_id] in *.
 
 Lemma loud_var c t' ev : node_count t' = node_count (symbols c) -> good c (log (bump_vch (set_symbols c t')) ev).
 Proof.
@@ -297,11 +308,12 @@ Proof.
   - unfold mono. simp_ctx. rewrite N. auto.
   - intros (_ & _ & V). simp_ctx. lia.
 Qed.
-Lemma loud_flag c t' id sp ev : node_count t' = node_count (symbols c) -> good c (log (flag_undefined (set_symbols c t') id sp) ev).
+Lemma loud_flag c t' id sp ev : node_count t' = node_count (symbols c) -> good c (log (flag_changed (set_symbols c t') id sp) ev).
 Proof.
   intro N. eapply good_loud with (new := [_]); [| reflexivity |].
-  - unfold mono. simp_ctx. rewrite N. repeat split; auto. intro H. exfalso. eapply set_insert_nonempty; eauto.
-  - intros (U & _). simp_ctx. eapply set_insert_nonempty; eauto.
+  - unfold mono. split; [|simp_ctx; rewrite N; auto].
+    intro H. exfalso. apply (flags_changed_nonempty (set_symbols c t') id sp). exact H.
+  - intros (U & _). apply (flags_changed_nonempty (set_symbols c t') id sp). exact U.
 Qed.
 
 Lemma good_add_symbol id sym : GM (add_symbol id sym).
@@ -350,12 +362,12 @@ Qed.
 Lemma flag_usages_facts ps : forall c,
   symbols (flag_usages c ps) = symbols c /\ g_vch (flag_usages c ps) = g_vch c /\ g_trace (flag_usages c ps) = g_trace c /\
   current_scope_nx (flag_usages c ps) = current_scope_nx c /\
-  (undefined (flag_usages c ps) = [] -> undefined c = []).
+  (flags (flag_usages c ps) = [] -> flags c = []).
 Proof.
   induction ps as [|[p sp] r IH]; intro c; cbn [flag_usages]; [repeat split; auto|].
   destruct (lookup_in (symbols c) (current_scope_nx c) p); [apply IH|].
-  destruct (IH (flag_undefined c p (Some sp))) as (A & B & C & D & E). cbn in *.
-  repeat split; auto. intro H. apply E in H. exfalso. eapply set_insert_nonempty; eauto.
+  destruct (IH (flag_undefined c p (Some sp))) as (A & B & C & D & E). cbn in A, B, C, D.
+  repeat split; auto. intro H. apply E in H. exfalso. eapply flags_undefined_nonempty; eauto.
 Qed.
 
 Lemma good_eval e : GM (evaluate_expression e).
@@ -371,7 +383,7 @@ Proof.
   { intro pc. destruct (diverges c (le_expr e)); [exact I|].
     destruct (eval (env_of (symbols c) (current_scope_nx c) pc) (le_expr e)) as [v|x|] eqn:Ev; [|apply good_refl|exact I].
     destruct (flag_usages_facts (combine (usages (le_expr e)) (le_ids e)) c) as (A & B & C & D & E).
-    split; [unfold mono; cbn; rewrite A, B; auto|].
+    split; [unfold mono; split; [exact E|cbn [symbols g_vch log]; rewrite A, B; auto]|].
     eexists [_]. split; [cbn; rewrite C; reflexivity|]. intros _. cbn [symbols log]. rewrite A.
     split; [apply same_vals_refl|]. constructor; [exact Ev|constructor]. }
   destruct (try_current_target_pc c); [apply G|apply G|exact I].
@@ -433,11 +445,11 @@ Qed.
 (* C02_clean_static_stable *)
 Theorem clean_static_stable fuel toks c errs c' :
   run_pass fuel toks c = PassOk errs c' ->
-  undefined c' = [] -> node_count (symbols c') = node_count (symbols c) -> g_vch c' = g_vch c ->
+  undefined c' = [] -> changed c' = [] -> node_count (symbols c') = node_count (symbols c) -> g_vch c' = g_vch c ->
   same_vals (symbols c) (symbols c').
 Proof.
-  intros H U N V. destruct (run_pass_good _ _ _ _ _ H) as [_ (new & _ & Q)].
-  destruct Q as [S _]; [unfold quiet; auto|exact S].
+  intros H U C N V. destruct (run_pass_good _ _ _ _ _ H) as [_ (new & _ & Q)].
+  destruct Q as [S _]; [unfold quiet, flags; rewrite U, C; auto|exact S].
 Qed.
 
 Lemma pass_deterministic fuel toks c c' r r' : c = c' -> run_pass fuel toks c = r -> run_pass fuel toks c' = r' -> r = r'.
@@ -464,7 +476,7 @@ Lemma pass_loop_done passes fuel o toks : forall c pu pe cf,
   pass_loop passes fuel o toks c pu pe = Done cf ->
   g_trace c = [] -> g_vch c = 0%nat -> fresh_segs c ->
   exists c0, g_trace c0 = [] /\ g_vch c0 = 0%nat /\ fresh_segs c0 /\ run_pass fuel toks c0 = PassOk [] cf /\
-             undefined cf = [] /\ node_count (symbols cf) = node_count (symbols c0).
+             (undefined cf = [] /\ changed cf = []) /\ node_count (symbols cf) = node_count (symbols c0).
 Proof.
   induction passes as [|n IH]; intros c pu pe cf H T V FS; cbn [pass_loop] in H; [discriminate|].
   destruct (run_pass fuel toks c) as [errors c1|f] eqn:ER; [|discriminate].
@@ -474,11 +486,14 @@ Proof.
     destruct errors as [|e es].
     + rewrite stop_rule_counts_symbols in H. cbn [negb orb] in H.
       destruct (undefined c1) as [|u us] eqn:EU.
-      * cbn [andb] in H.
-        destruct (negb (negb (Nat.eqb (node_count (symbols c1)) (node_count (symbols c))))) eqn:EN.
-        -- inversion H; subst cf. rewrite negb_involutive in EN. apply Nat.eqb_eq in EN.
-           exact (ex_intro _ c (conj T (conj V (conj FS (conj ER (conj EU EN)))))).
-        -- destruct ((negb unknown_needs_nonempty || negb true) && set_eqb [] pu); [discriminate|].
+      * cbn [andb] in H. destruct (changed c1) as [|ch chs] eqn:EC.
+        -- cbn [andb] in H.
+           destruct (negb (negb (Nat.eqb (node_count (symbols c1)) (node_count (symbols c))))) eqn:EN.
+           ++ inversion H; subst cf. rewrite negb_involutive in EN. apply Nat.eqb_eq in EN.
+              exact (ex_intro _ c (conj T (conj V (conj FS (conj ER (conj (conj EU EC) EN)))))).
+           ++ destruct ((negb unknown_needs_nonempty || negb true) && set_eqb [] pu); [discriminate|].
+              apply IH in H; auto using fresh_next_pass.
+        -- cbn [andb] in H. destruct ((negb unknown_needs_nonempty || negb true) && set_eqb [] pu); [discriminate|].
            apply IH in H; auto using fresh_next_pass.
       * cbn [andb] in H. destruct ((negb unknown_needs_nonempty || negb false) && set_eqb (u :: us) pu); [discriminate|].
         apply IH in H; auto using fresh_next_pass.
@@ -494,17 +509,17 @@ Theorem fixed_point passes fuel o toks cf :
 Proof.
   unfold codegen, no_silent_change, FixedPoint. intros H V.
   apply pass_loop_done in H; [|reflexivity|reflexivity|apply fresh_initial].
-  destruct H as (c0 & T0 & V0 & _ & HR & U & N).
+  destruct H as (c0 & T0 & V0 & _ & HR & [U C] & N).
   destruct (run_pass_good _ _ _ _ _ HR) as [_ (new & TN & Q)].
   rewrite T0, app_nil_r in TN. rewrite TN.
-  destruct Q as [S F]; [unfold quiet; repeat split; auto; congruence|].
+  destruct Q as [S F]; [unfold quiet, flags; rewrite U, C; repeat split; auto; congruence|].
   eapply Forall_impl; [|exact F]. intro ev. apply holds_same_vals. exact S.
 Qed.
 
 (* what the stop rule establishes on its own *)
 Theorem done_is_stable passes fuel o toks cf :
   codegen passes fuel o toks = Done cf ->
-  undefined cf = [] /\
+  (undefined cf = [] /\ changed cf = []) /\
   exists c0, run_pass fuel toks c0 = PassOk [] cf /\ g_trace c0 = [] /\ node_count (symbols cf) = node_count (symbols c0).
 Proof.
   unfold codegen. intro H. apply pass_loop_done in H; [|reflexivity|reflexivity|apply fresh_initial].
